@@ -131,7 +131,9 @@ class Interp:
 
     def entails(self, t):
         """does assumptions + pc imply t ? (unknown -> False)"""
-        key = (tuple(x.get_id() for x in self.pc), len(self.assumptions), t.get_id())
+        # replay stability: the first answer for (path condition, term) is final.  Assumptions only grow, so a
+        # cached True stays true and a cached False is merely conservative
+        key = (tuple(x.get_id() for x in self.pc), t.get_id())
         hit = self.entails_cache.get(key)
         if hit is not None:
             return hit[0]
@@ -827,15 +829,48 @@ class Interp:
 
     def pin_length(self, s):
         """if assumptions + pc pin len(s) to one value return it, else None"""
+        ln = simp(s.len)
+        if z3.is_int_value(ln):
+            return ln.as_long()
+        key = ("pin", tuple(x.get_id() for x in self.pc), ln.get_id())
+        hit = self.entails_cache.get(key)
+        if hit is not None:
+            return hit[0]
+        v = None
+        m = self.cur_model if self.cur_model_key == (len(self.assumptions), len(self.pc)) else None
+        if m is None:
+            sol = self.solver()
+            self.nqueries += 1
+            if sol.check() == z3.sat:
+                m = sol.model()
+        if m is not None:
+            cand = m.eval(ln, model_completion=True)
+            if z3.is_int_value(cand):
+                self.nqueries += 1
+                if self.solver([ln != cand]).check() == z3.unsat:
+                    v = cand.as_long()
+        self.entails_cache[key] = (v, ln, list(self.pc))
+        return v
+
+    def pin_str(self, v):
+        """if assumptions + pc pin every character of the fixed-length string v, return the python str, else None"""
+        v = concretize(v) if is_sym(v) else v
+        if isinstance(v, str):
+            return v
+        if not isinstance(v, SStr):
+            return None
         sol = self.solver()
-        self.nqueries += 2
+        self.nqueries += 1
         if sol.check() != z3.sat:
             return None
-        v = sol.model().eval(s.len, model_completion=True).as_long()
-        sol.add(s.len != v)
-        if sol.check() == z3.unsat:
-            return v
-        return None
+        m = sol.model()
+        out = []
+        for c in v.chars:
+            val = m.eval(c, model_completion=True)
+            if not z3.is_int_value(val) or not self.entails(c == val):
+                return None
+            out.append(chr(val.as_long()))
+        return "".join(out)
 
     def vector_of(self, s, n):
         return SStr([s.at(z3.IntVal(i)) for i in range(n)])
@@ -850,7 +885,11 @@ class Interp:
         if hi is None:
             # suffix of unknown length
             if self.branch(SBool(s.len >= lo)):
-                return SFn(s.len - lo, (lambda i, s=s, lo=lo: s.at(i + lo)), f"{s.name}[{lo}:]")
+                r = SFn(s.len - lo, (lambda i, s=s, lo=lo: s.at(i + lo)), f"{s.name}[{lo}:]")
+                for a in ("all_fix", "upper_closed"):
+                    if getattr(s, a, False):
+                        setattr(r, a, True)
+                return r
             return ""
         if self.branch(SBool(s.len >= hi)):
             return SStr([s.at(z3.IntVal(i)) for i in range(lo, hi)]) if hi > lo else ""
@@ -912,6 +951,14 @@ class Interp:
         """d[key] for a symbolic fixed-length key.  Single-character tables become an ite chain; otherwise the
         lookup forks per candidate key of the same length."""
         cands = [k for k in d if isinstance(k, str) and len(k) == len(key)]
+        if len(cands) > 4:
+            pinned = self.pin_str(key)
+            if pinned is not None:
+                if pinned in d:
+                    return d[pinned]
+                if default is KeyError:
+                    raise Raised(KeyError(pinned))
+                return default
         if len(key) == 1 and cands and all(
                 (isinstance(d[k], str) and len(d[k]) == 1) or (isinstance(d[k], int) and not isinstance(d[k], bool))
                 for k in cands):
@@ -1227,6 +1274,9 @@ class Interp:
                 r = self.or_all(cs)
             return self.not_(r) if isinstance(op, ast.NotIn) else r
         if isinstance(op, (ast.Is, ast.IsNot)):
+            if type(a).__name__ == "SBoolMatch" and b is None or type(b).__name__ == "SBoolMatch" and a is None:
+                t = z3.Not((a if b is None else b).t)
+                return SBool(t) if isinstance(op, ast.Is) else SBool(z3.Not(t))
             if isinstance(a, SBool) and isinstance(b, bool) or isinstance(b, SBool) and isinstance(a, bool):
                 sb, cb = (a, b) if isinstance(a, SBool) else (b, a)
                 t = sb.t if cb else z3.Not(sb.t)
